@@ -99,6 +99,7 @@ typedef struct {
 
 	int 				random_seed_base_labels;
 	int 				label_counter;
+	bool				obfuscation_seeded;		//!< Has the email obfuscation generator been restarted for this export?
 
 	stack 		*		used_citations;
 	stack 		*		inline_citations_to_free;
